@@ -101,7 +101,7 @@ def gen_table(rng, n_enums, big=False):
                     # fault: the value is not ready the first time(s) its text is asked for
                     rec[-1] = {"flaky": rec[-1] or "x", "fails": rng.choice([1, 1, 2])}
             elif f == "status":
-                rec.append(rng.choice([0, 1, 2, 3, 10, 17, 200, 999, None, "1", "10", "None", "17", 2.0, "2.0"]))   # (look-alikes of other types too)
+                rec.append(rng.choice([0, 1, 2, 3, 10, 17, 200, 999, None, "1", "10", "None", "17", 2.0, "2.0", 0.0, -0.0]))   # (look-alikes of other types too)
             elif f == "level":
                 rec.append(rng.choice([7, 10, 17, 3.5, -2, None, 123456789, "7", "None", "3.5", 7.0]))
             else:
@@ -453,8 +453,14 @@ def generate(rng, tier):
         if not enums:
             enums = [gen_enum(rng)]
         twins = []
-        for pool in ([0, 1, 2, 3, 2, 1], [0.0, 1.0, 2.0, True, False, 3.0]):
+        for pool in ([0, 1, 2, 3, 2, 1], [0.0, 1.0, 2.0, True, False, 3.0, -0.0]):
             recs = [[i + 1, rng.choice(pool)] for i in range(rng.randint(2, 5))]
+            if -0.0 in pool and rng.random() < 0.6:
+                # ... and equal values of ONE type that print differently, side by side
+                recs[:2] = [[1, rng.choice([0.0, -0.0])], [2, rng.choice([0.0, -0.0])]]
+                recs[rng.randrange(2)][1] = -0.0 if str(recs[0][1]) == str(recs[1][1]) == "0.0" else recs[0][1]
+                if str(recs[0][1]) == str(recs[1][1]):
+                    recs[1][1] = 0.0 if str(recs[0][1]) == "-0.0" else -0.0
             t = {"kind": "table", "fields": ["id", "status"], "records": recs, "types": {"status": 0}}
             fmt = rng.choice([None, "status/val,id", "status/full", "id,status/val"])
             if fmt:
@@ -590,6 +596,12 @@ def generate(rng, tier):
             if a["conf"] == "global" and not a["no_color"] and not a["palette"] and rng.random() < 0.3:
                 a["how"] = "dunder"
             ops.append(a)
+        elif r < 0.705:
+            # the application changes its environment (for the child processes it starts: a pager, git): no
+            # rendering may depend on it
+            ops.append({"op": "env", "name": rng.choice(["NO_COLOR", "CLICOLOR", "CLICOLOR_FORCE", "FORCE_COLOR", "TERM",
+                                                         "COLUMNS", "LINES", "COLORTERM", "LANG", "PYTHONIOENCODING"]),
+                        "value": rng.choice(["1", "0", "dumb", "40", "", None])})
         elif r < 0.80 or not live_task:
             o = rng.choice(sorted(live_obj))
             t = rng.randrange(N_TASK)
@@ -1082,6 +1094,13 @@ def _do_op(w, trace, op, n, k, log, color):
         w.stats[k] += 1
         if w.obj_confs_used.get(op["obj"]):
             w.stats["tbl_rendered_then_changed"] += 1
+    elif k == "env":
+        import os
+        if op.get("value") is None:
+            os.environ.pop(op["name"], None)
+        else:
+            os.environ[op["name"]] = op["value"]
+        w.stats["env_changes"] = w.stats.get("env_changes", 0) + 1
     elif k == "render":
         t = w.start(op)
         if t is None:
